@@ -271,7 +271,7 @@ func authnSigAlgs(
 	switch {
 	case authnCtx == TokenAuthnContext && client.TokenAuthnSigAlg != "":
 		return []goidc.SignatureAlgorithm{client.TokenAuthnSigAlg}
-	case authnCtx == TokenIntrospectionAuthnContext && client.TokenIntrospectionAuthnMethod != "":
+	case authnCtx == TokenIntrospectionAuthnContext && client.TokenIntrospectionAuthnSigAlg != "":
 		return []goidc.SignatureAlgorithm{client.TokenIntrospectionAuthnSigAlg}
 	case authnCtx == TokenRevocationAuthnContext && client.TokenRevocationAuthnSigAlg != "":
 		return []goidc.SignatureAlgorithm{client.TokenRevocationAuthnSigAlg}
